@@ -22,7 +22,7 @@ META = {
             'sample(sig, control, refine) and sample(der(sig)) of a bspline variable are proven equal to the reference spline / derivative spline of the NLP coefficient variables in physical time. distinct by (shape,label)',
     'functions': ['rockit/splines/micro_spline.py:eval_basis_knotindex/eval_basis_knotindex_subgrid/eval_on_knots/bspline_derivative/get_greville_points',
                   'rockit/sampling_method.py:BSplineSignal (sample, der, get_der, register), add_variables_V (bspline variables)', 'rockit/stage.py:variable(grid=bspline)/der/_grid_control(refine)'],
-    'bounds': 'degree 0..4; breakpoints: uniform N in {1,2,4,6}, two non-uniform rational vectors; symbolic tau in [0,1) per span; signals: order 0..3, N<=4, refine<=3, SplineMethod (values, gist = coefficients at Greville points, der), MS and DC (values on the refined integrator grid), SplineMethod integrator chain p\'=v, v\'=u; uniform and geometric grids, free and fixed T',
+    'bounds': 'degree 0..4; breakpoints: uniform N in {1,2,4,6}, two non-uniform rational vectors; symbolic tau in [0,1) per span; signals: order 0..3, N<=4, refine<=3, SplineMethod (values, gist = coefficients at Greville points, der), MS and DC (values on the refined integrator grid), SplineMethod integrator chain p\'=v, v\'=u; uniform and geometric grids, free and fixed T; FreeGrid (knots are decision variables): the combination is rejected, or the samples and der() samples are compared (ground, two concrete decision vectors) with the spline on the control grid those vectors describe',
     'outside': 'fully symbolic knots (z3 answers unknown); complete row bijection of the SplineMethod NLP (only coefficient relations, refined samples and presence of path-constraint rows are checked); '
                '"same optimal trajectories as shooting" (a statement about optimisers); IEEE rounding (the 1+eps workaround in micro_spline is identified with 1)',
     'assumptions': ['reals for floats; constants identified up to 1e-10', 'coefficient order of a bspline variable = creation order of its NLP variables'],
@@ -73,6 +73,10 @@ def instances(tier, seed):
         # several integrator steps per control interval: the derivative signal is evaluated in the control interval the step belongs to
         add(kind='signal', order=2, method=method, N=2, M=2, grid=fam.G_UNI, T=('num', Fr(2)), refine=None, der=True)
         add(kind='signal', order=3, method=method, N=3, M=[3, 2][method == 'DC'], grid=fam.G_GEO_LOC, T=('free', Fr(3, 2)), refine=2, der=True)
+    # a grid whose knots are DECISION variables (FreeGrid): the signal must be the spline on the knots of the control grid actually used, or be rejected
+    for method in ('MS', 'DC'):
+        add(kind='signal', order=2, method=method, N=3, grid=fam.G_FREE, T=('num', Fr(2)), refine=None, reject_ok=True)
+        add(kind='signal', order=1, method=method, N=2, grid=fam.G_FREE, T=('free', Fr(3, 2)), refine=2, der=True, reject_ok=True)
     # bspline signals INSIDE the dynamics next to other parameters / variables of the stage (layout of the integrator's parameter vector)
     for what in ('parameter', 'variable'):
         for N, grid, T in ((3, fam.G_UNI, ('num', Fr(2))), (2, fam.G_GEO_LOC, ('free', Fr(3, 2)))):
@@ -304,13 +308,55 @@ def run_signal(item):
                     outs += [master._method.opti.g]
                     opti_ = master._method.opti
                     bnds_num = (np.array(opti_.debug.value(opti_.ubg, opti_.initial())).flatten(), np.array(opti_.debug.value(opti_.lbg, opti_.initial())).flatten())
+            if item.get('reject_ok'):
+                outs += [ocp.sample(ocp.t, grid='control')[1], ocp.sample(sig, grid='gist')[1]]
             prog, zin, out = _trace(master, outs, ctx)
     except Unsupported:
         raise
     except Exception as e:
+        if item.get('reject_ok') and 'bspline' in str(e).lower():
+            # no fixed knot vector exists: declining the combination is the expected answer
+            ctx.proved.append('rejected: %s' % str(e).strip().splitlines()[-1][:120])
+            return ctx.result('signal order=%d %s free knots' % (order, method), {'kind': 'signal', 'rejected': str(e).strip().splitlines()[-1][:200]})
         ctx.viol.append({'property': PROP, 'key': 'raises|%s|order>=1 with der' % method if item.get('der') else 'raises|%s' % method, 'label': 'bspline variable order %d%s under %s' % (order, ' with der()' if item.get('der') else '', method),
                          'detail': 'declaring/transcribing/sampling raised: %s' % str(e).strip().splitlines()[-1][:200]})
         return ctx.result('signal order=%d %s' % (order, method), {'kind': 'signal', 'raised': True})
+    if item.get('reject_ok'):
+        # accepted: the knots are whatever control grid the decision vector describes.  Decided on two concrete decision vectors (generic, increasing
+        # control times): every reported sample must be the Cox-de Boor value, on the knots of THAT control grid, of the reported coefficients.
+        rg = random.Random(17)
+        bad = None
+        for trial in range(2):
+            fin = [[rg.uniform(0.3, 1.2) for _ in grp] for grp in zin]
+            fo = prog.run(ctx.fdom, fin)
+            tcs, cfs = [float(v) for v in fo[-2]], [float(v) for v in fo[-1]]
+            if len(tcs) != N + 1 or any(tcs[k + 1] <= tcs[k] for k in range(N)):
+                continue
+            xs = [Fr(v).limit_denominator(10 ** 9) for v in tcs]
+            dcf = rb.derivative_coeffs(cfs[:nb], xs, order, ctx.fdom) if dsig is not None else None      # knots in physical time: derivative in physical time
+            for j_, (tv, sv) in enumerate(zip(fo[0], fo[1])):
+                xv = Fr(float(tv)).limit_denominator(10 ** 9)
+                if xv >= xs[-1]:
+                    continue
+                span = max([i for i in range(N) if xs[i] <= xv] or [0])
+                want = rb.spline_value(cfs[:nb], xs, order, span, float(xv), ctx.fdom)
+                if abs(float(want) - float(sv)) > 1e-7 * (1 + abs(float(want))):
+                    bad = ('sample', float(tv), float(sv), float(want), tcs)
+                    break
+                if dcf is not None:
+                    wd = rb.spline_value(dcf, xs, order - 1, span, float(xv), ctx.fdom)
+                    if abs(float(wd) - float(fo[3][j_])) > 1e-7 * (1 + abs(float(wd))):
+                        bad = ('der() sample', float(tv), float(fo[3][j_]), float(wd), tcs)
+                        break
+            else:
+                ctx.proved.append('free knots, decision vector %d: samples are the spline on the control grid used (ground)' % trial)
+            if bad:
+                break
+        if bad:
+            ctx.viol.append({'property': PROP, 'key': key + '|free-knots', 'label': 'sample(sig) under FreeGrid',
+                             'detail': 'the signal was accepted on a grid with free knots, but at t=%.6g its %s %.9g is not the value %.9g of the spline of the gist coefficients on the control-grid knots %s '
+                                       '(it is a spline on equidistant knots, reported at the times of another grid)' % (bad[1], bad[0], bad[2], bad[3], [round(v, 6) for v in bad[4]])})
+        return ctx.result('signal order=%d %s free knots' % (order, method), {'kind': 'signal', 'free_knots': True, 'accepted': True})
     tsz, ssz, Tz = out[0], out[1], out[2][0]
     ctx.s.add(Tz > 0)
     rT = ctx.rdom.wrap(Tz)
